@@ -104,16 +104,42 @@ pub struct Prog {
     pub render: Vec<usize>,
     /// node id -> keyword for effects created through another constructor (seff / ieff / weff / wieff)
     pub other: Vec<(usize, &'static str)>,
+    /// memoc nodes (leaves): node id -> bucket width of the coarse comparator
+    pub coarse: Vec<(usize, i64)>,
     pub tags: Vec<&'static str>,
 }
 
+/// a memoc leaf: biased to bodies whose value moves inside one comparator bucket (`add R<sig> …`, values 0..2, k >= 2)
+fn gen_memoc(r: &mut Rng, defs: &mut Vec<Def>, coarse: &mut Vec<(usize, i64)>, untracked: bool) {
+    let readable: Vec<usize> = (0..defs.len())
+        .filter(|i| matches!(defs[*i], Def::Sig(_) | Def::Memo(_)) && !coarse.iter().any(|c| c.0 == *i))
+        .collect();
+    let sigs: Vec<usize> = readable.iter().copied().filter(|i| matches!(defs[*i], Def::Sig(_))).collect();
+    let mut g = G { r, untracked };
+    let depth = g.r.range(0, 2);
+    let mut e = g.expr(&readable, depth);
+    if r.chance(1, 2) && !sigs.is_empty() {
+        e = Expr::Add(Box::new(Expr::Rd(true, *r.pick(&sigs))), Box::new(e));
+    }
+    let k = *r.pick(&[2i64, 2, 3, 3, 4, 5, 9]);
+    defs.push(Def::Memo(e));
+    coarse.push((defs.len() - 1, k));
+}
+
 pub fn gen_prog(r: &mut Rng, mode: Mode) -> Prog {
+    gen_prog_with(r, mode, false)
+}
+
+/// `more_untracked`: accessor-variety cases read untracked more often (five untracked accessors to reach)
+pub fn gen_prog_with(r: &mut Rng, mode: Mode, more_untracked: bool) -> Prog {
     let mut defs: Vec<Def> = vec![];
+    let mut coarse: Vec<(usize, i64)> = vec![];
+    let want_coarse = r.chance(1, if mode == Mode::C01 { 3 } else { 8 });
     let nsig = r.range(1, 3);
     for _ in 0..nsig {
         defs.push(Def::Sig(r.below(3) as i64));
     }
-    let untracked = r.chance(1, 4) && mode != Mode::C02;
+    let untracked = r.chance(1, if more_untracked { 2 } else { 4 }) && mode != Mode::C02;
     let stages = match mode {
         Mode::C01 => 1,
         Mode::C09 => r.range(1, 2),
@@ -128,7 +154,8 @@ pub fn gen_prog(r: &mut Rng, mode: Mode) -> Prog {
             _ => r.range(0, 4),
         };
         for _ in 0..nmemo {
-            let readable: Vec<usize> = (0..defs.len()).filter(|i| !matches!(defs[*i], Def::Eff(_))).collect();
+            let readable: Vec<usize> =
+                (0..defs.len()).filter(|i| !matches!(defs[*i], Def::Eff(_)) && !coarse.iter().any(|c| c.0 == *i)).collect();
             // bias: read recent nodes (chains/diamonds) more than old ones
             let mut biased = readable.clone();
             for &x in readable.iter().rev().take(3) {
@@ -139,6 +166,11 @@ pub fn gen_prog(r: &mut Rng, mode: Mode) -> Prog {
             let depth = g.r.range(1, 3);
             let e = g.expr(&biased, depth);
             defs.push(Def::Memo(e));
+        }
+        if want_coarse && (mode == Mode::C01 || r.chance(1, 2)) {
+            for _ in 0..r.range(1, 2) {
+                gen_memoc(r, &mut defs, &mut coarse, untracked);
+            }
         }
         if mode == Mode::C01 {
             break;
@@ -153,7 +185,7 @@ pub fn gen_prog(r: &mut Rng, mode: Mode) -> Prog {
         let neff = if mode == Mode::C09 && r.chance(1, 3) { 0 } else { r.range(1, 2) };
         for j in 0..neff {
             let readable: Vec<usize> = (0..defs.len())
-                .filter(|i| !matches!(defs[*i], Def::Eff(_)) && Some(*i) != out)
+                .filter(|i| !matches!(defs[*i], Def::Eff(_)) && Some(*i) != out && !coarse.iter().any(|c| c.0 == *i))
                 .collect();
             let mut biased = readable.clone();
             for &x in readable.iter().rev().take(4) {
@@ -226,16 +258,23 @@ pub fn gen_prog(r: &mut Rng, mode: Mode) -> Prog {
     if !other.is_empty() {
         tags.push("effkinds");
     }
+    if !coarse.is_empty() {
+        tags.push("memoc");
+    }
     if tags.is_empty() {
         tags.push("plain");
     }
-    Prog { defs, render, other, tags }
+    Prog { defs, render, other, coarse, tags }
 }
 
 pub fn write_prog(f: &mut impl Write, p: &Prog) -> std::io::Result<()> {
     for (i, d) in p.defs.iter().enumerate() {
         match d {
             Def::Sig(v) => writeln!(f, "sig {v}")?,
+            Def::Key(..) => {}
+            Def::Memo(b) if p.coarse.iter().any(|c| c.0 == i) => {
+                writeln!(f, "memoc {} {}", p.coarse.iter().find(|c| c.0 == i).unwrap().1, show_expr(b))?
+            }
             Def::Memo(b) => writeln!(f, "memo {}", show_expr(b))?,
             Def::Eff(b) if p.render.contains(&i) => writeln!(f, "reff {}", show_expr(b))?,
             Def::Eff(b) if p.other.iter().any(|o| o.0 == i) => {
@@ -248,18 +287,224 @@ pub fn write_prog(f: &mut impl Write, p: &Prog) -> std::io::Result<()> {
     Ok(())
 }
 
+/// A selector case (C02 / C09): signals, an optional memo, `sel K <source>`, then readers of the key nodes (effects of
+/// every constructor, memos, dynamic reads) created before AND after the selection moves, histories with polls in
+/// non-FIFO order.  The shapes asked for: a key first read while it is selected and deselected later (`selfirst`), keys
+/// that are never selected (`selnever`), readers created after a move (`sellate`).
+fn gen_selector_case(r: &mut Rng, mode: Mode) -> (Vec<&'static str>, Vec<String>) {
+    let mut lines: Vec<String> = vec![];
+    let mut defs: Vec<Def> = vec![];
+    let mut cur: Vec<i64> = vec![];
+    let mut tags = vec!["selector"];
+    let k = r.range(1, 4) as usize;
+    let nsig = r.range(1, 2);
+    let vmax = k + 1; // values 0..=k: value k selects no key
+    for _ in 0..nsig {
+        let v = r.below(vmax) as i64;
+        defs.push(Def::Sig(v));
+        cur.push(v);
+        lines.push(format!("sig {v}"));
+    }
+    let sigs: Vec<usize> = (0..nsig as usize).collect();
+    let mut push = |defs: &mut Vec<Def>, cur: &mut Vec<i64>, lines: &mut Vec<String>, kw: &str, d: Def| {
+        if let Def::Memo(b) | Def::Eff(b) = &d {
+            lines.push(format!("{kw} {}", show_expr(b)));
+        }
+        defs.push(d);
+        cur.push(0);
+    };
+    if r.chance(1, 3) {
+        let e = if r.chance(1, 2) {
+            Expr::Rd(true, *r.pick(&sigs))
+        } else {
+            Expr::Add(Box::new(Expr::Rd(true, *r.pick(&sigs))), Box::new(Expr::Rd(true, *r.pick(&sigs))))
+        };
+        push(&mut defs, &mut cur, &mut lines, "memo", Def::Memo(e));
+    }
+    let data: Vec<usize> = (0..defs.len()).collect();
+    let src = match r.below(10) {
+        0..=5 => Expr::Rd(true, *r.pick(&sigs)),
+        6 | 7 => Expr::Rd(true, *data.last().unwrap()),
+        8 => Expr::Add(Box::new(Expr::Rd(true, *r.pick(&data))), Box::new(Expr::Rd(true, *r.pick(&data)))),
+        _ => Expr::Ite(
+            Box::new(Expr::Rd(true, *r.pick(&data))),
+            Box::new(Expr::Rd(true, *r.pick(&data))),
+            Box::new(Expr::Lit(r.below(vmax) as i64)),
+        ),
+    };
+    if !matches!(src, Expr::Rd(..)) {
+        tags.push("selexpr");
+    }
+    let first = defs.len();
+    lines.push(format!("sel {k} {}", show_expr(&src)));
+    let node = first + k;
+    for j in 0..k {
+        defs.push(Def::Key(node, j as i64));
+        cur.push(0);
+    }
+    defs.push(Def::Eff(src.clone()));
+    cur.push(0);
+    let keys: Vec<usize> = (first..first + k).collect();
+    // per key: was a reader created while it was selected / has it ever been selected
+    let mut read_while_selected = vec![false; k];
+    let mut ever_selected = vec![false; k];
+    let mut ever_read = vec![false; k];
+    let mut moved = false;
+    let (mut selfirst, mut sellate, mut nonfifo) = (false, false, false);
+    let selection = |defs: &[Def], cur: &[i64]| eval_pure(defs, cur, &src);
+    let mut add_reader = |r: &mut Rng, defs: &mut Vec<Def>, cur: &mut Vec<i64>, lines: &mut Vec<String>, moved: bool,
+                          read_while_selected: &mut Vec<bool>, ever_read: &mut Vec<bool>| {
+        let now = selection(defs, cur);
+        // biased to the key that is selected right now
+        let pick_key = |r: &mut Rng| -> usize {
+            if now >= 0 && (now as usize) < k && r.chance(1, 2) { now as usize } else { r.below(k) }
+        };
+        let j = pick_key(r);
+        let kj = Expr::Rd(true, keys[j]);
+        let mut used = vec![j];
+        let body = match r.below(8) {
+            0 | 1 | 2 => kj,
+            3 => {
+                let j2 = pick_key(r);
+                used.push(j2);
+                Expr::Add(Box::new(kj), Box::new(Expr::Rd(true, keys[j2])))
+            }
+            4 => Expr::Ite(Box::new(kj), Box::new(Expr::Rd(true, *r.pick(&sigs))), Box::new(Expr::Lit(0))),
+            5 => Expr::Add(Box::new(kj), Box::new(Expr::Rd(true, *r.pick(&sigs)))),
+            6 => Expr::Add(Box::new(Expr::Rd(true, *r.pick(&sigs))), Box::new(kj)),
+            _ => {
+                let j2 = pick_key(r);
+                used.push(j2);
+                Expr::Ite(Box::new(Expr::Rd(true, *r.pick(&sigs))), Box::new(kj), Box::new(Expr::Rd(true, keys[j2])))
+            }
+        };
+        for j in used {
+            ever_read[j] = true;
+            if now == j as i64 {
+                read_while_selected[j] = true;
+            }
+        }
+        if r.chance(1, 4) {
+            // through a memo
+            push(defs, cur, lines, "memo", Def::Memo(body));
+            let m = defs.len() - 1;
+            push(defs, cur, lines, "eff", Def::Eff(Expr::Rd(true, m)));
+        } else {
+            let kw = *r.pick(&["eff", "eff", "eff", "reff", "reff", "seff", "ieff", "wieff"]);
+            push(defs, cur, lines, kw, Def::Eff(body));
+        }
+        moved
+    };
+    let mut note_selection = |defs: &[Def], cur: &[i64], ever_selected: &mut Vec<bool>| {
+        let now = eval_pure(defs, cur, &src);
+        if now >= 0 && (now as usize) < k {
+            ever_selected[now as usize] = true;
+        }
+    };
+    note_selection(&defs, &cur, &mut ever_selected);
+    for _ in 0..r.range(1, 3) {
+        add_reader(r, &mut defs, &mut cur, &mut lines, moved, &mut read_while_selected, &mut ever_read);
+    }
+    let len = r.range(6, 24);
+    for _ in 0..len {
+        match r.below(12) {
+            0..=3 => {
+                let s = *r.pick(&sigs);
+                let v = r.below(vmax) as i64;
+                let before = eval_pure(&defs, &cur, &src);
+                cur[s] = v;
+                let after = eval_pure(&defs, &cur, &src);
+                if before != after {
+                    moved = true;
+                    if before >= 0 && (before as usize) < k && read_while_selected[before as usize] {
+                        selfirst = true;
+                    }
+                }
+                note_selection(&defs, &cur, &mut ever_selected);
+                lines.push(format!("set {s} {v}"));
+            }
+            4..=6 => {
+                let i = r.below(4);
+                if i > 0 {
+                    nonfifo = true;
+                }
+                lines.push(format!("poll {i}"));
+            }
+            7 => lines.push("idle".into()),
+            8 | 9 => {
+                let readable: Vec<usize> =
+                    (0..defs.len()).filter(|i| matches!(defs[*i], Def::Sig(_) | Def::Memo(_) | Def::Key(..))).collect();
+                lines.push(format!("read {}", *r.pick(&readable)));
+            }
+            _ => {
+                if add_reader(r, &mut defs, &mut cur, &mut lines, moved, &mut read_while_selected, &mut ever_read) {
+                    sellate = true;
+                }
+            }
+        }
+    }
+    lines.push("idle".into());
+    let _ = mode;
+    if selfirst {
+        tags.push("selfirst");
+    }
+    if sellate {
+        tags.push("sellate");
+    }
+    if (0..k).any(|j| ever_read[j] && !ever_selected[j]) {
+        tags.push("selnever");
+    }
+    if nonfifo {
+        tags.push("nonfifo");
+    }
+    (tags, lines)
+}
+
 pub fn gen(mode: Mode, seed: u64, n: usize, path: &str, _tier: &str) -> std::io::Result<()> {
     let mut r = Rng::new(seed ^ (mode as u64 + 1) * 0x5151);
     let mut f = std::io::BufWriter::new(std::fs::File::create(path)?);
     for i in 0..n {
-        let p = gen_prog(&mut r, mode);
+        // accessor / constructor variety on half of the cases
+        let acc: Option<usize> = if r.chance(1, 2) { Some(r.below(60) as usize) } else { None };
+        if mode != Mode::C01 && r.chance(1, if mode == Mode::C02 { 4 } else { 6 }) {
+            let (mut tags, lines) = gen_selector_case(&mut r, mode);
+            if acc.is_some() {
+                tags.push("acc");
+            }
+            writeln!(f, "case {i}:{}", tags.join(","))?;
+            writeln!(f, "mode {}", if r.chance(1, 2) { "arena" } else { "arc" })?;
+            if let Some(a) = acc {
+                writeln!(f, "acc {a}")?;
+            }
+            if r.chance(1, 4) {
+                writeln!(f, "wrap {}", r.range(1, 2))?;
+            }
+            for l in lines {
+                writeln!(f, "{l}")?;
+            }
+            continue;
+        }
+        let p = gen_prog_with(&mut r, mode, acc.is_some());
         let mut tags = p.tags.clone();
+        if acc.is_some() {
+            tags.retain(|t| *t != "plain");
+            tags.push("acc");
+            if p.defs.iter().enumerate().any(|(i, d)| {
+                matches!(d, Def::Memo(_)) && !p.coarse.iter().any(|c| c.0 == i) && memo_ctor(acc, i) != 0
+            }) {
+                tags.push("ctor");
+            }
+            if p.defs.iter().enumerate().any(|(i, d)| matches!(d, Def::Sig(_)) && sig_split(acc, i)) {
+                tags.push("split");
+            }
+        }
         let arena = r.chance(1, 2);
         let len = r.range(5, 30);
         let sigs: Vec<usize> = p.defs.iter().enumerate().filter(|(_, d)| matches!(d, Def::Sig(_))).map(|x| x.0).collect();
         let readable: Vec<usize> =
             p.defs.iter().enumerate().filter(|(_, d)| matches!(d, Def::Memo(_) | Def::Sig(_))).map(|x| x.0).collect();
         let memos: Vec<usize> = p.defs.iter().enumerate().filter(|(_, d)| matches!(d, Def::Memo(_))).map(|x| x.0).collect();
+        let leaves: Vec<usize> = p.coarse.iter().map(|c| c.0).collect();
         let has_eff = p.defs.iter().any(|d| matches!(d, Def::Eff(_)));
         let effs: Vec<usize> = p.defs.iter().enumerate().filter(|(_, d)| matches!(d, Def::Eff(_))).map(|x| x.0).collect();
         let lifecycle = has_eff && r.chance(1, 4);
@@ -288,6 +533,10 @@ pub fn gen(mode: Mode, seed: u64, n: usize, path: &str, _tier: &str) -> std::io:
                 }
                 cur[s] = v;
                 ops.push(format!("set {s} {v}"));
+                // a coarse memo is interesting right after a write that may stay inside its bucket
+                if !leaves.is_empty() && r.chance(1, 2) {
+                    ops.push(format!("read {}", *r.pick(&leaves)));
+                }
             } else if k < 7 || !has_eff {
                 let m = if !memos.is_empty() && r.chance(5, 6) { *r.pick(&memos) } else { *r.pick(&readable) };
                 ops.push(format!("read {m}"));
@@ -305,6 +554,9 @@ pub fn gen(mode: Mode, seed: u64, n: usize, path: &str, _tier: &str) -> std::io:
         }
         writeln!(f, "case {i}:{}", tags.join(","))?;
         writeln!(f, "mode {}", if arena { "arena" } else { "arc" })?;
+        if let Some(a) = acc {
+            writeln!(f, "acc {a}")?;
+        }
         let wrap = if r.chance(1, 3) { r.range(1, 2) } else { 0 };
         if wrap != 0 {
             writeln!(f, "wrap {wrap}")?;
